@@ -50,6 +50,7 @@
 (declare-fun class_of (Int) Int)          ; class id of object id
 (assert (forall ((i Int)) (! (>= (class_of i) 100) :pattern ((class_of i)))))   ; objects are never of a value type
 (declare-fun obj_dictlen (V) Int)         ; len() of an object of a dict subclass
+(declare-fun obj_dict (V) V)              ; the mapping held by an object of a dict subclass (_PropertyDict, PatternDict, ...)
 ; the class table (subclass, meta_of, obj_truthy from the live classes) is inserted here
 ;;CLASS_TABLE;;
 
@@ -71,6 +72,7 @@
             (dict_wf_from it (+ j 1)))))
 (define-fun dict_wf ((d V)) Bool (and ((_ is v_dict) d) (dict_wf_from (ditems d) 0)))
 
+(assert (forall ((x V)) (! (= (obj_dictlen x) (seq.len (ditems (obj_dict x)))) :pattern ((obj_dictlen x)))))
 ; ---- equality: CPython == and Draft-6 instance equality
 (declare-fun obj_eq (V V) Bool)           ; __eq__ of two (non-identical) objects; see axioms per run
 (define-funs-rec ((py_eq ((a V) (b V)) Bool)
